@@ -1138,7 +1138,8 @@ public:
   [[nodiscard]]
   ASMJIT_INLINE_NODEBUG uint64_t label_offset(uint32_t label_id) const noexcept {
     ASMJIT_ASSERT(is_label_valid(label_id));
-    return _label_entries[label_id].offset();
+    const LabelEntry& le = _label_entries[label_id];
+    return le.is_bound() ? le.offset() : uint64_t(0);
   }
 
   //! \overload
@@ -1161,7 +1162,7 @@ public:
     ASMJIT_ASSERT(is_label_valid(label_id));
 
     const LabelEntry& le = _label_entries[label_id];
-    return (le.is_bound() ? _sections[le.section_id()]->offset() : uint64_t(0)) + le.offset();
+    return le.is_bound() ? _sections[le.section_id()]->offset() + le.offset() : uint64_t(0);
   }
 
   //! \overload
